@@ -1,3 +1,6 @@
 import Emboss.Properties.C06
 open Emboss.Text
-#print axioms C06_placeholder
+#print axioms C06_int_roundtrip
+#print axioms C06_decode_no_wrap
+#print axioms C06_decode_rejects
+#print axioms C06_decode_accepts
